@@ -4,6 +4,7 @@ import PhysisModel.Proofs.MdlWriteBytes
 import PhysisModel.Model.MdlWrite
 import PhysisModel.Spec.MdlEdit
 import PhysisModel.Proofs.MdlEditParse
+import PhysisModel.Proofs.MdlDriverTie
 /-!
 # C07 — written models re-read as the same model, including after edits
 -/
@@ -286,5 +287,14 @@ example :
          isOk (ces.foldlM Mdl.applyEdit (parsedOf shapeSample v0))
      | _, _, _ => false) = true := by
   decide +kernel
+/-- The concrete API calls the check's driver issues for an `edit` / `wbytes` case
+(`Driver/C07.lean`: `concretizeAll`, run with `applyCEdit`) are the calls
+`c07_edit_then_parse_partial` quantifies over (`cedits`, run with `Mdl.applyEdit`), on every history
+the specification gives a meaning. -/
+theorem c07_driver_calls (a a' : AbstractModel) (es : List AEdit) (h : applyEdits a es = some a') :
+    (Driver.C07.concretizeAll a es).map (·.map toEdit) = cedits a es ∧
+    ∀ (cs : List Driver.C07.CEdit) (m : MDL),
+      cs.foldlM Driver.C07.applyCEdit m = (cs.map toEdit).foldlM Mdl.applyEdit m :=
+  ⟨concretizeAll_eq es a a' h, foldlM_applyCEdit⟩
 
 end Physis.C07
